@@ -21,6 +21,7 @@ type hist struct {
 	Hook       bool   `json:"dispatch_hook"`
 	External   bool   `json:"external_storage"`
 	ExtZstd    bool   `json:"external_zstd,omitempty"`
+	UploadFail bool   `json:"external_upload_fails,omitempty"`
 	MaxResp    int64  `json:"max_response_bytes,omitempty"`
 	MaxExt     int64  `json:"max_externalized_response_bytes,omitempty"`
 	BatchLimit int    `json:"producer_batch_limit,omitempty"`
@@ -50,6 +51,7 @@ var streamClasses = []string{"stream:complete", "stream:turn-error", "stream:tur
 	"stream:cancel", "stream:cancel-nohook", "stream:early-eos", "stream:castable", "stream:not-castable", "stream:castfail-second",
 	"stream:init-error", "stream:init-panic", "stream:init-nil", "stream:init-badstate", "stream:param-mismatch", "stream:big",
 	"stream:ext-input", "stream:ext-input-multi", "stream:ext-input-logfirst", "stream:ext-input-missing", "stream:ext-input-loop", "stream:ext-request",
+	"stream:rows0", "stream:rows2", "stream:ext-input-truncated", "stream:ext-input-empty", "stream:ext-input-castable", "stream:ext-input-notcastable",
 	"stream:header-ok", "stream:header-fails-at-field-0", "stream:header-fails-at-field-1", "stream:header-fails-at-field-2"}
 var allClasses = append(append([]string{}, unaryClasses...), streamClasses...)
 
@@ -182,7 +184,8 @@ func genCall(rg *rand.Rand, class, sid string) call {
 			o.Turns = 0 // echo as many rows as the input has
 		}
 		nIn = 1 + rg.IntN(3)
-	case "stream:ext-input", "stream:ext-input-multi", "stream:ext-input-logfirst", "stream:ext-input-missing", "stream:ext-input-loop":
+	case "stream:ext-input", "stream:ext-input-multi", "stream:ext-input-logfirst", "stream:ext-input-missing", "stream:ext-input-loop",
+		"stream:ext-input-truncated", "stream:ext-input-empty", "stream:ext-input-castable", "stream:ext-input-notcastable":
 		exchangeOnly()
 		c.ExtKind = strings.TrimPrefix(class, "stream:ext-")
 		nIn = 1 + rg.IntN(3)
@@ -193,6 +196,9 @@ func genCall(rg *rand.Rand, class, sid string) call {
 		c.IVariant = ""
 	}
 	c.Script = svc.GenStream(rg, sid, o)
+	if rg.IntN(5) == 0 {
+		c.Script.Header = false // a header method may return no header
+	}
 	if class == "stream:big" && c.Producer {
 		for k := range c.Script.Turns {
 			c.Script.Turns[k].Rows = 200 + rg.IntN(200)
@@ -201,7 +207,7 @@ func genCall(rg *rand.Rand, class, sid string) call {
 	c.Inputs = svc.GenInputs(rg, nIn)
 	atLeastOneRow := class == "stream:not-castable" || class == "stream:castable" || class == "stream:castfail-second" || strings.HasPrefix(class, "stream:ext-input")
 	for k := range c.Inputs {
-		if atLeastOneRow && len(c.Inputs[k].X) == 0 {
+		if atLeastOneRow && len(c.Inputs[k].X) == 0 && (k == 0 || strings.HasPrefix(class, "stream:ext-input")) {
 			c.Inputs[k] = svc.InputSpec{X: []int64{int64(k) + 1}, W: []float64{0.5}}
 		}
 		if class == "stream:big" {
@@ -249,6 +255,9 @@ func genHist(seedRand func(stream ...uint64) *rand.Rand, i int) hist {
 		default:
 			h.External, h.MaxExt = true, int64(600+rg.IntN(1500))
 		}
+	}
+	if h.External && h.MaxExt == 0 && rg.IntN(4) == 0 {
+		h.UploadFail = true // storage refuses every upload: results travel inline
 	}
 	if h.Transport == "http" && h.BatchLimit == 0 && rg.IntN(2) == 0 {
 		h.BatchLimit = 1 + rg.IntN(3)
@@ -344,6 +353,21 @@ func uploadFor(c call, k int, put func([]byte) string) (url string) {
 		return put(gen.IPCBytes(svc.InSchema, b, ptr))
 	case "input-missing":
 		return "https://mem.invalid/obj/does-not-exist"
+	case "input-truncated":
+		// one complete data batch, then a second one cut in the middle
+		raw := gen.IPCBytes(svc.InSchema, b, b)
+		one := gen.IPCBytes(svc.InSchema, b)
+		return put(raw[:len(one)-8+(len(raw)-len(one))/2])
+	case "input-empty":
+		// an object with no bytes at all (hostile bytes are C03's subject: arrow's
+		// reader allocates whatever length the first four bytes claim)
+		return put(nil)
+	case "input-castable", "input-notcastable":
+		// the uploaded batch has a schema other than the declared input schema: resolved first, cast (or refused) next
+		v := map[string]string{"input-castable": "both", "input-notcastable": "badtype"}[c.ExtKind]
+		vb := svc.BuildInput(in, v)
+		defer vb.Release()
+		return put(gen.IPCBytes(vb.Schema(), vb))
 	}
 	return ""
 }
